@@ -277,6 +277,315 @@ def matmul_descriptor(f):
 MATMUL_REF = ((('self', 'num_rows'), ('rhs', 'num_cols')), frozenset([('self', 'x', 'i'), ('rhs', 'i', 'y')]))
 
 
+# ---------------------------------------------------------------- D5: block tiling, pivot bookkeeping, elimination ranges (gauss_helper)
+
+def _lets_in(stmts):
+    return {s['pat']['name']: s for s in stmts if s.get('k') == 'Let' and s['pat'].get('k') == 'Bind' and s.get('init') is not None}
+
+
+def block_tiling(f):
+    """for every cols in 1..=24 and blocksize in 1..=cols the column ranges [i0, i1) of the blocks sec = 0..num_blocks tile [0, cols) in order.
+    Decided by interpreting `num_blocks`, `i0`, `i1` on integers. Returns [(loop-name, ok, msg, n_evaluated)]"""
+    from .. import intinterp as I
+    ps = _param_ids(f)
+    top = _lets_in(hir.stmts_of(f['hir']))
+    if 'num_blocks' not in top or 'cols' not in top or 'blocksize' not in ps:
+        return [('shape', None, 'gauss_helper no longer computes `num_blocks` from `cols` and `blocksize` at its top level (not-established-by-recognised-idiom)', 0)]
+    cols_id, nb_let = top['cols']['pat']['id'], top['num_blocks']
+    loops = []
+    for n in hir.nodes(f['hir']):
+        if n.get('k') in ('For', 'While'):
+            ls = _lets_in(hir.stmts_of(n['body']))
+            if 'i0' in ls and 'i1' in ls:
+                sec = None
+                if n.get('k') == 'For' and hir.bindings(n['pat']):
+                    sec = hir.bindings(n['pat'])[0][1]
+                else:
+                    for x in hir.nodes(ls['i0']['init']):
+                        l = hir.local(x) if x.get('k') == 'Path' else None
+                        if l and l[1] not in (ps.get('blocksize'), cols_id):
+                            sec = l[1]
+                loops.append((n, ls, sec))
+    res = []
+    for n, ls, sec in loops:
+        name = 'forward' if n.get('k') == 'For' else 'backward'
+        cnt = 0
+        bad = None
+        try:
+            for cols in range(1, 25):
+                for bs in range(1, cols + 1):
+                    env = {cols_id: cols, ps['blocksize']: bs}
+                    nb = I.ev(nb_let['init'], env)
+                    # the values `sec` takes: For: the range; While: counts down from num_blocks to 0 (checked structurally below)
+                    secs = list(range(nb))
+                    if n.get('k') == 'For':
+                        rb = hir.range_bounds(n['iter'])
+                        lo, hi = I.ev(rb[0], dict(env, **{nb_let['pat']['id']: nb})), I.ev(rb[1], dict(env, **{nb_let['pat']['id']: nb}))
+                        secs = list(range(lo, hi + (1 if rb[2] else 0)))
+                    rngs = []
+                    for s_ in secs:
+                        e2 = dict(env, **{sec: s_})
+                        i0 = I.ev(ls['i0']['init'], e2)
+                        i1 = I.ev(ls['i1']['init'], dict(e2, **{ls['i0']['pat']['id']: i0}))
+                        rngs.append((i0, i1))
+                        cnt += 1
+                    flat = [c for a, b in sorted(rngs) for c in range(a, b)]
+                    if flat != list(range(cols)) or any(a >= b for a, b in rngs):
+                        bad = 'for %d columns and block size %d the blocks are %s: they do not tile 0..%d (columns %s are never examined / examined twice)' % (
+                            cols, bs, sorted(rngs), cols, sorted(set(range(cols)) ^ set(flat)) or 'overlap')
+                        raise StopIteration
+        except StopIteration:
+            pass
+        except I.NoEval as ex:
+            res.append((name, None, 'block arithmetic not evaluable (%s) (not-established-by-recognised-idiom)' % ex, cnt))
+            continue
+        if n.get('k') == 'While' and bad is None:
+            # while sec != 0 { sec -= 1; .. } with  let mut sec = num_blocks
+            c = hir.strip(n['cond'])
+            st = hir.stmts_of(n['body'])
+            first = hir.strip(st[0]) if st else {}
+            init_ok = any(x.get('k') == 'Let' and x['pat'].get('k') == 'Bind' and x['pat']['id'] == sec and hir.local(x['init']) and hir.local(x['init'])[1] == nb_let['pat']['id'] for x in hir.nodes(f['hir']) if x.get('init') is not None)
+            down = (c.get('k') == 'Binary' and c['op'] in ('Ne', 'Gt') and hir.local(c['l']) and hir.local(c['l'])[1] == sec and hir.lit_int(hir.strip(c['r'])) == 0
+                    and first.get('k') == 'AssignOp' and first['op'] == 'SubAssign' and hir.local(first['l']) and hir.local(first['l'])[1] == sec and hir.lit_int(hir.strip(first['r'])) == 1)
+            others = [x for x in hir.nodes(n['body']) if x.get('k') in ('Assign', 'AssignOp') and hir.local(x['l']) and hir.local(x['l'])[1] == sec and x is not first]
+            if not (init_ok and down and not others):
+                bad = 'the backward phase does not visit the blocks num_blocks-1 down to 0 (`let mut sec = num_blocks; while sec != 0 { sec -= 1; ..}`)'
+        res.append((name, bad is None, bad or '', cnt))
+    if len(res) < 2:
+        res.append(('both-phases', None, 'expected a forward and a backward loop over the column blocks, found %d' % len(res), 0))
+    return res
+
+
+def pivot_bookkeeping(f):
+    """forward phase: where a pivot is found, its column is recorded, the pivot row advances by one and the search for this column stops — all three, once, in the same branch"""
+    res = []
+    for n in hir.nodes(f['hir']):
+        if n.get('k') == 'MethodCall' and n['name'] == 'push' and hir.local_name(n['recv']) == 'pivot_cols':
+            pm = hir.parent_map(f['hir'])
+            blk = None
+            for par, slot in hir.ancestors(n, pm):
+                if par.get('k') == 'Block':
+                    blk = par
+                    break
+            st = [hir.strip(x) for x in hir.stmts_of(blk)]
+            inc = [x for x in st if x.get('k') == 'AssignOp' and x['op'] == 'AddAssign' and hir.local_name(x['l']) == 'pivot_row' and hir.lit_int(hir.strip(x['r'])) == 1]
+            brk = [x for x in st if x.get('k') == 'Break']
+            # the pushed column is the column loop variable tested in the dominating `self.d[r0][p] != 0`
+            col = hir.local(n['args'][0])
+            tested = False
+            for c in paths.dominating_conds(n, pm):
+                if c[0] == 'cond' and c[2]:
+                    e = hir.strip(c[1])
+                    if e.get('k') == 'Binary' and e['op'] == 'Ne' and hir.lit_int(hir.strip(e['r'])) == 0:
+                        l = hir.strip(e['l'])
+                        if l.get('k') == 'Index' and hir.local(l['i']) and col and hir.local(l['i'])[1] == col[1]:
+                            tested = True
+            res.append((len(inc) == 1 and len(brk) == 1 and tested,
+                        'where a pivot is found: %d increment(s) of pivot_row, %d break(s), pivot column %s the tested column — a column must contribute at most one pivot and exactly one rank' % (len(inc), len(brk), 'is' if tested else 'is NOT')))
+    return res
+
+
+def elimination_ranges(f):
+    """every elimination loop covers all the rows it has to clear: forward (pivot_row+1)..rows, backward 0..pivot_row, pivot search / chunk scan pivot_row..rows"""
+    ps = _param_ids(f)
+    top = _lets_in(hir.stmts_of(f['hir']))
+    rows_id = top['rows']['pat']['id'] if 'rows' in top else None
+    res = []
+    pm = hir.parent_map(f['hir'])
+    for n in hir.find(f['hir'], 'For'):
+        rb = hir.range_bounds(n['iter'])
+        if not rb or rb[1] is None:
+            continue
+        var = hir.bindings(n['pat'])
+        if not var:
+            continue
+        adds = [c for c in hir.calls(n['body'], into_closures=False) if c.get('k') == 'MethodCall' and c['name'] == 'row_add' and _is_local(c['recv'], ps.get('self'))
+                and not any(x.get('k') == 'For' and x is not n and any(y is c for y in hir.nodes(x)) for x in hir.find(n['body'], 'For'))]
+        lo, hi = hir.strip(rb[0]), hir.strip(rb[1])
+
+        def is_pr(e, off):
+            e = hir.strip(e)
+            if off == 0:
+                return hir.local_name(e) == 'pivot_row'
+            return e.get('k') == 'Binary' and e['op'] == 'Add' and hir.local_name(e['l']) == 'pivot_row' and hir.lit_int(hir.strip(e['r'])) == off
+        is_rows = bool(hir.local(hi) and hir.local(hi)[1] == rows_id) or (hi.get('k') == 'MethodCall' and hi['name'] == 'num_rows')
+        for c in adds:
+            a, b = hir.strip(c['args'][0]), hir.strip(c['args'][1])
+            if hir.local(b) and hir.local(b)[1] == var[0][1] and hir.local_name(a) == 'pivot_row':
+                backward = any(cd[0] == 'cond' and cd[2] and hir.local_name(cd[1]) == 'full_reduce' for cd in paths.dominating_conds(n, pm))
+                if backward:
+                    ok = hir.lit_int(lo) == 0 and is_pr(hi, 0) and not rb[2]
+                    res.append(('backward-elimination', ok, 'the backward elimination must clear the pivot column in all rows above the pivot (`0..pivot_row`), it runs over `%s`' % hir.pp(n['iter'])[:50]))
+                else:
+                    ok = is_pr(lo, 1) and is_rows and not rb[2]
+                    res.append(('forward-elimination', ok, 'the forward elimination must clear the pivot column in all rows below the pivot (`pivot_row + 1..rows`), it runs over `%s`' % hir.pp(n['iter'])[:50]))
+        # pivot search: the loop whose body tests self.d[var][p] != 0 and contains the push
+        if any(c.get('k') == 'MethodCall' and c['name'] == 'push' and hir.local_name(c['recv']) == 'pivot_cols' for c in hir.calls(n['body'])) and hir.local_name(lo) == 'pivot_row':
+            res.append(('pivot-search', is_pr(lo, 0) and is_rows and not rb[2], 'the pivot search must look at every row from the current pivot row down (`pivot_row..rows`), it runs over `%s`' % hir.pp(n['iter'])[:50]))
+        def innermost_for(c):
+            for par, _slot in hir.ancestors(c, pm):
+                if par.get('k') in ('For', 'While', 'Loop'):
+                    return par
+            return None
+        if any(c.get('k') == 'MethodCall' and c['name'] == 'insert' and hir.local_name(c['recv']) == 'chunks' and innermost_for(c) is n for c in hir.calls(n['body'])):
+            res.append(('chunk-scan', is_pr(lo, 0) and is_rows and not rb[2], 'the duplicate-chunk scan of the forward phase must cover `pivot_row..rows`, it runs over `%s`' % hir.pp(n['iter'])[:50]))
+    return res
+
+
+# ---------------------------------------------------------------- D6: nullspace data flow, transpose / stack / constructor descriptors
+
+def nullspace_flow(f):
+    res = []
+    fors = hir.find(f['hir'], 'For')
+    # the loop over the free variables: creates a zero row vector, sets entry free_var, back-substitutes, pushes
+    outer = None
+    for n in fors:
+        if any(c.get('k') == 'MethodCall' and c['name'] == 'push' and hir.local_name(c['recv']) == 'basis' for c in hir.calls(n['body'], into_closures=False)):
+            outer = n
+            break
+    if outer is None:
+        return [('shape', None, 'the loop that builds one basis vector per free variable was not found (not-established-by-recognised-idiom)')]
+    fv = hir.bindings(outer['pat'])[0][1]
+    it = hir.strip(outer['iter'])
+    while it.get('k') == 'MethodCall' and it['name'] in ('iter', 'into_iter', 'copied', 'cloned'):
+        it = hir.strip(it['recv'])
+    res.append(('one-vector-per-free-variable', hir.local_name(it) == 'free_vars' and not any(x.get('k') in ('Continue', 'Break', 'Ret') and x.get('target') in (None, outer.get('id')) for x in hir.nodes(outer['body'], into_closures=False) if x.get('k') in ('Break', 'Ret')),
+                'a basis vector must be produced for every free variable (loop over `free_vars`, no early exit)'))
+    assigns = [a for a in hir.nodes(outer['body']) if a.get('k') == 'Assign' and hir.lit_int(hir.strip(a['r'])) == 1]
+    unit = [a for a in assigns if hir.strip(a['l']).get('k') == 'Index' and hir.local(hir.strip(a['l'])['i']) and hir.local(hir.strip(a['l'])['i'])[1] == fv]
+    res.append(('unit-at-free-variable', len(unit) == 1, 'each basis vector must have a 1 at its own free variable'))
+    inner = [n for n in hir.find(outer['body'], 'For')]
+    ok = False
+    msg = 'back substitution not recognised'
+    if len(inner) == 1 and inner[0]['pat'].get('k') == 'Tuple' and len(inner[0]['pat']['sub']) == 2:
+        rowv = hir.bindings(inner[0]['pat']['sub'][0])
+        pcv = hir.bindings(inner[0]['pat']['sub'][1])
+        it2 = hir.strip(inner[0]['iter'])
+        names = []
+        while it2.get('k') == 'MethodCall':
+            names.append(it2['name'])
+            it2 = hir.strip(it2['recv'])
+        src_ok = hir.local_name(it2) == 'pivot_cols' and 'enumerate' in names
+        sets = [a for a in hir.nodes(inner[0]['body']) if a.get('k') == 'Assign' and hir.lit_int(hir.strip(a['r'])) == 1]
+        tgt_ok = len(sets) == 1 and hir.strip(sets[0]['l']).get('k') == 'Index' and pcv and hir.local(hir.strip(sets[0]['l'])['i']) and hir.local(hir.strip(sets[0]['l'])['i'])[1] == pcv[0][1]
+        test_ok = False
+        if sets:
+            pm = hir.parent_map(inner[0]['body'])
+            for c in paths.dominating_conds(sets[0], pm):
+                if c[0] == 'cond' and c[2]:
+                    e = hir.strip(c[1])
+                    if e.get('k') == 'Binary' and e['op'] in ('Eq', 'Ne'):
+                        l = hir.strip(e['l'])
+                        want = 1 if e['op'] == 'Eq' else 0
+                        if l.get('k') == 'Index' and hir.lit_int(hir.strip(e['r'])) == want:
+                            rr = hir.strip(l['e'])
+                            if rr.get('k') == 'Index' and hir.local(rr['i']) and rowv and hir.local(rr['i'])[1] == rowv[0][1] and hir.local(l['i']) and hir.local(l['i'])[1] == fv and hir.local_name(rr['e']) == 'mat':
+                                test_ok = True
+        ok = src_ok and tgt_ok and test_ok
+        msg = 'back substitution must set entry `pivot_col` of the vector exactly when the reduced matrix has a 1 at (row of that pivot, free variable): source pivot_cols.enumerate %s, target column %s, tested entry mat[row][free_var] %s' % (
+            'ok' if src_ok else 'WRONG', 'ok' if tgt_ok else 'WRONG', 'ok' if test_ok else 'WRONG')
+    res.append(('back-substitution', ok, msg))
+    # the reduced matrix is the full reduction of a clone
+    g = [c for c in hir.calls(f['hir']) if c.get('k') == 'MethodCall' and c['name'] in ('gauss', 'gauss_x', 'gauss_helper')]
+    full = len(g) == 1 and hir.lit_bool(hir.strip(g[0]['args'][0])) is True and hir.local_name(g[0]['recv']) == 'mat'
+    res.append(('fully-reduced-clone', full, 'the null space must be read off the FULLY reduced form (gauss(true)) of a clone'))
+    return res
+
+
+def shape_descriptors(facts):
+    """[(key, ok, msg)] for transpose / vstack / hstack / id / unit_vector / zeros / ones / num_rows / num_cols / gauss / gauss_x / rank"""
+    F = facts['fns']
+    res = []
+
+    def build_call(f):
+        cs = hir.calls_to(f['hir'], 'linalg::Mat2::build')
+        return cs[0] if len(cs) == 1 else None
+
+    def closure_of(c):
+        cl = hir.strip(c['args'][2])
+        return cl if cl.get('k') == 'Closure' else None
+    # transpose: build(num_cols, num_rows, |i, j| self[j][i] == 1)
+    f = F.get('linalg::Mat2::transpose')
+    c = build_call(f) if f else None
+    ok = False
+    if c is not None and closure_of(c):
+        dims = [hir.strip(a)['name'] if hir.strip(a).get('k') == 'MethodCall' else '?' for a in c['args'][:2]]
+        cl = closure_of(c)
+        ids = [i for p2 in cl['params'] for _n, i in hir.bindings(p2)]
+        b = hir.strip(cl['body'])
+        swapped = False
+        if b.get('k') == 'Binary' and b['op'] in ('Eq', 'Ne') and len(ids) == 2:
+            l = hir.strip(b['l'])
+            want = 1 if b['op'] == 'Eq' else 0
+            if l.get('k') == 'Index' and hir.strip(l['e']).get('k') == 'Index' and hir.lit_int(hir.strip(b['r'])) == want:
+                outer_i, inner_i = hir.local(hir.strip(l['e'])['i']), hir.local(l['i'])
+                swapped = bool(outer_i and inner_i and outer_i[1] == ids[1] and inner_i[1] == ids[0])
+        ok = dims == ['num_cols', 'num_rows'] and swapped
+    res.append(('linalg::Mat2::transpose', ok, 'transpose must be build(num_cols, num_rows, |i, j| self[j][i] == 1): dimensions and indices both exchanged'))
+    # constructors
+    for name, dims_want, body_want in (('id', ('dim', 'dim'), 'eq-params'), ('unit_vector', ('dim', 1), 'eq-first-i'), ('zeros', ('rows', 'cols'), False), ('ones', ('rows', 'cols'), True)):
+        f = F.get('linalg::Mat2::' + name)
+        c = build_call(f) if f else None
+        ok = False
+        if c is not None and closure_of(c):
+            dims = tuple(hir.local_name(a) if hir.local(a) else hir.lit_int(hir.strip(a)) for a in c['args'][:2])
+            cl = closure_of(c)
+            ids = [i for p2 in cl['params'] for _n, i in hir.bindings(p2)]
+            b = hir.strip(cl['body'])
+            if body_want in (True, False):
+                bok = hir.lit_bool(b) is body_want
+            elif body_want == 'eq-params':
+                bok = b.get('k') == 'Binary' and b['op'] == 'Eq' and len(ids) == 2 and {hir.local(b['l'])[1] if hir.local(b['l']) else None, hir.local(b['r'])[1] if hir.local(b['r']) else None} == set(ids)
+            else:
+                ii = [p2['id'] for p2 in f['params'] if p2.get('name') == 'i']
+                bok = b.get('k') == 'Binary' and b['op'] == 'Eq' and bool(ids) and bool(ii) and {hir.local(b['l'])[1] if hir.local(b['l']) else None, hir.local(b['r'])[1] if hir.local(b['r']) else None} == {ids[0], ii[0]}
+            ok = dims == dims_want and bool(bok)
+        res.append(('linalg::Mat2::' + name, ok, '%s is not build(%s, %s, <%s>)' % (name, dims_want[0], dims_want[1], body_want)))
+    # num_rows / num_cols
+    f = F.get('linalg::Mat2::num_rows')
+    st = hir.stmts_of(f['hir']) if f else []
+    e = hir.strip(st[-1]) if st else {}
+    res.append(('linalg::Mat2::num_rows', e.get('k') == 'MethodCall' and e['name'] == 'len' and hir.strip(e['recv']).get('k') == 'Field', 'num_rows must be the number of stored rows'))
+    f = F.get('linalg::Mat2::num_cols')
+    lens = [c for c in hir.calls(f['hir']) if c.get('k') == 'MethodCall' and c['name'] == 'len'] if f else []
+    ok = any(hir.strip(c['recv']).get('k') == 'Index' and hir.lit_int(hir.strip(hir.strip(c['recv'])['i'])) == 0 for c in lens)
+    res.append(('linalg::Mat2::num_cols', ok, 'num_cols must be the length of a stored row (0 for the empty matrix)'))
+    # vstack / hstack: the asserted dimension, and which side comes first
+    for name, dim in (('vstack', 'num_cols'), ('hstack', 'num_rows')):
+        f = F.get('linalg::Mat2::' + name)
+        ok = False
+        if f:
+            dims = [c['name'] for c in hir.calls(f['hir']) if c.get('k') == 'MethodCall' and c['name'] in ('num_rows', 'num_cols')]
+            asserted = dims[:2] == [dim, dim]
+            if name == 'vstack':
+                # result starts as self.d.clone(); other's rows are pushed after
+                init = [n for n in hir.nodes(f['hir']) if n.get('k') == 'Let' and n.get('init') is not None and 'self.d' in hir.pp(n['init']).replace(' ', '')]
+                fors = hir.find(f['hir'], 'For')
+                src = hir.pp(fors[0]['iter']) if fors else ''
+                ok = asserted and bool(init) and 'other' in src and any(c.get('k') == 'MethodCall' and c['name'] in ('push', 'extend') for c in hir.calls(f['hir']))
+            else:
+                fors = hir.find(f['hir'], 'For')
+                ok = asserted and len(fors) == 1 and 'other' in hir.pp(fors[0]['iter']) and 'enumerate' in hir.pp(fors[0]['iter'])
+                if ok:
+                    ext = [c for c in hir.calls(fors[0]['body']) if c.get('k') == 'MethodCall' and c['name'] in ('extend', 'extend_from_slice', 'append')]
+                    iv = hir.bindings(fors[0]['pat']['sub'][0]) if fors[0]['pat'].get('k') == 'Tuple' else []
+                    ok = len(ext) == 1 and bool(iv) and hir.strip(ext[0]['recv']).get('k') == 'Index' and hir.local(hir.strip(ext[0]['recv'])['i']) and hir.local(hir.strip(ext[0]['recv'])['i'])[1] == iv[0][1]
+        res.append(('linalg::Mat2::' + name, ok, '%s must assert equal %s and append the other matrix %s' % (name, dim, 'below' if name == 'vstack' else 'row by row to the right')))
+    # forwarders: gauss(full_reduce) / gauss_x(full_reduce, blocksize, x) / rank() on a clone with full_reduce = false
+    for name, want in (('gauss', ['full_reduce', 3]), ('gauss_x', ['full_reduce', 'blocksize', 'x'])):
+        f = F.get('linalg::Mat2::' + name)
+        cs = hir.calls_to(f['hir'], GAUSS) if f else []
+        got = [hir.local_name(a) if hir.local(hir.strip(a)) else hir.lit_int(hir.strip(a)) for a in cs[0]['args'][:len(want)]] if len(cs) == 1 else None
+        if got is not None and len(got) == len(want) and isinstance(got[1], int) and got[1] >= 1:
+            got[1] = want[1]        # the block size only shapes the sequence of row operations, any positive value is correct
+        res.append(('linalg::Mat2::' + name, got == want and hir.local_name(cs[0]['recv']) == 'self', '%s must forward (%s) to gauss_helper on self, it passes %s' % (name, ', '.join(map(str, want)), got)))
+    f = F.get('linalg::Mat2::rank')
+    cs = [c for c in hir.calls(f['hir']) if c.get('k') == 'MethodCall' and c['name'] == 'gauss'] if f else []
+    ok = len(cs) == 1 and hir.lit_bool(hir.strip(cs[0]['args'][0])) is not None and hir.local_name(cs[0]['recv']) not in (None, 'self')
+    res.append(('linalg::Mat2::rank', ok, 'rank must be the return value of gauss on a clone'))
+    return res
+
+
 def run(ck):
     facts = ck.facts
     ck.decided('D1 every self.row_add(a,b) in gauss_helper is immediately mirrored by x.row_add(a,b) with identical operands (and no orphan mirror op)',
@@ -284,6 +593,10 @@ def run(ck):
                'D3 inverse returns Some only for a square matrix whose full reduction of a clone has rank == rows, and returns the proxy that started as the identity; '
                'row_add/col_add are transposes of each other and follow the trait doc (add first INTO second); Mul reference impl is the F2 matrix product and the 3 forwarders forward in operand order')
     ck.decided('D4 every column block and column is examined for a pivot (no early exit from those loops); the null space is returned empty early only at rank == columns')
+    ck.decided('D5 the column blocks tile 0..cols for every cols <= 24 and block size <= cols in both phases (integer interpretation of num_blocks / i0 / i1); a found pivot records its column, advances the pivot row by one and ends the search, once; '
+               'the elimination, pivot-search and chunk-scan loops cover pivot_row+1..rows / 0..pivot_row / pivot_row..rows',
+               'D6 nullspace: one vector per free variable, unit at the free variable, back substitution pairs mat[row][free_var] with entry pivot_col over pivot_cols.enumerate, read off the fully reduced clone; '
+               'transpose exchanges dimensions and indices; id / unit_vector / zeros / ones / num_rows / num_cols / vstack / hstack descriptors; gauss / gauss_x / rank forward their arguments')
     ck.not_decided('that the result is a (reduced) echelon form', 'rank / null-space values', 'algebraic laws of transpose/stack/mul as value equalities')
     f = ck.fn(GAUSS)
     pm = hir.parent_map(f['hir'])
@@ -366,6 +679,34 @@ def run(ck):
         ok = ok and conds == [('(rank == n)', True)] and 'new' in hir.pp(p.ret)
     nlet = [n for n in hir.nodes(nf['hir']) if n.get('k') == 'Let' and n['pat'].get('k') == 'Bind' and n['pat']['name'] == 'n' and 'num_cols' in hir.pp(n['init'])]
     ck.ob('R-PATH', nk + '/empty-only-at-full-column-rank', ok and len(nlet) == 1, ck.site(nk), 'the null space may be returned empty early only when rank == number of columns (its dimension is columns - rank): early returns %s' % [[(hir.pp(c[1]), c[2]) for c in p.conds if c[0] == 'cond'] for p in early])
+    # D5
+    nb = 0
+    for name, ok, msg, cnt in block_tiling(f):
+        nb += cnt
+        if ok is None:
+            ck.violation('R-COVER-blocks', GAUSS + '/' + name, ck.site(GAUSS), msg)
+        else:
+            ck.ob('R-COVER-blocks', GAUSS + '/' + name, ok, ck.site(GAUSS), msg, sample={'block_ranges_evaluated': cnt, 'domain': 'cols 1..=24, blocksize 1..=cols'})
+    if all(ok for _n, ok, _m, _c in block_tiling(f)):
+        ck.floor('R-COVER-blocks evaluations', nb, 1000)
+    pb = pivot_bookkeeping(f)
+    for i, (ok, msg) in enumerate(pb):
+        ck.ob('R-PAIR-pivot', GAUSS + '/pivot-%d' % i, ok, ck.site(GAUSS), msg)
+    ck.floor('R-PAIR-pivot', len(pb), 1)
+    er = elimination_ranges(f)
+    for name, ok, msg in er:
+        ck.ob('R-RANGE-elim', GAUSS + '/' + name, ok, ck.site(GAUSS), msg)
+    ck.floor('R-RANGE-elim', len(er), 4)
+    # D6
+    for name, ok, msg in nullspace_flow(nf):
+        if ok is None:
+            ck.violation('R-DATAFLOW-nullspace', nk + '/' + name, ck.site(nk), msg)
+        else:
+            ck.ob('R-DATAFLOW-nullspace', nk + '/' + name, ok, ck.site(nk), msg)
+    sd = shape_descriptors(facts)
+    for key, ok, msg in sd:
+        ck.ob('R-TABLE-shape', key, ok, ck.site(key), msg)
+    ck.floor('R-TABLE-shape', len(sd), 12)
     # positive controls
     fx = fixture()
     g = fx['fns']['linalg::Mat2::gauss_helper']
@@ -375,6 +716,12 @@ def run(ck):
     gs = _param_ids(g).get('self')
     gprim = [c for c in hir.calls(g['hir']) if c.get('k') == 'MethodCall' and c['name'] == 'row_add' and _is_local(c['recv'], gs)]
     ck.control('R-NEQ flags an unguarded row_add(a, b)', any(neq_justification(g, c, gpm)[0] is None for c in gprim))
+    gb = fx['fns']['linalg::Mat2::gauss_blocks']
+    ck.control('R-COVER-blocks refutes a dropped partial block', any(ok is False for _n2, ok, _m, _c in block_tiling(gb)))
+    ck.control('R-PAIR-pivot flags a pivot without break', any(not ok for ok, _m in pivot_bookkeeping(gb)))
+    ck.control('R-RANGE-elim flags an elimination loop that starts too low', any(ok is False for _n2, ok, _m in elimination_ranges(gb)))
+    ck.control('R-DATAFLOW-nullspace flags a row/column mix-up', any(ok is False for _n2, ok, _m in nullspace_flow(fx['fns']['linalg::Mat2::nullspace'])))
+    ck.control('R-TABLE-shape flags a transpose that keeps the dimensions', any(ok is False for k2, ok, _m in shape_descriptors(fx) if k2.endswith('transpose')))
     r, _n = d3_inverse(fx['fns']['linalg::Mat2::inverse'])
     ck.control('R-PATH flags inverse without the rank test', any(not ok for ok, _p, _w in r))
     ck.control('R-SIB-rowcol flags a reversed row_add', addop_descriptor(fx['fns']['<linalg::Mat2 as linalg::RowOps>::row_add']) != ADD_REF['<linalg::Mat2 as linalg::RowOps>::row_add'])
